@@ -1,11 +1,963 @@
 package main
 
-import "verifharness/internal/vf"
+// C19 — the HTTP API is total: a well-formed answer always, rejects are side-effect free.
+//
+// The REAL /cdc handler around the REAL MetaCDC (embedded etcd as meta store and source catalog, memq, one fake
+// downstream Milvus over gRPC) is driven with
+//   (a) raw byte strings and JSON-grammar mutations of valid requests, non-POST methods, and
+//   (b) structurally valid requests whose field values come from a dictionary of adversarial values
+//       (see c19_gen.go), on an empty server and after 0-5 accepted creates of an "episode".
+//
+// The handler is called directly (httptest), so a panic inside it would kill the process: the server under test
+// therefore runs in CHILD PROCESSES (one per batch, re-exec of this binary with -c19-child). Every request is
+// written to disk BEFORE it is sent; a child that dies is attributed to that request.
+//
+// Oracle per request:
+//   1. the body of the response is exactly one JSON object with an integer "code" in {200,400,500}
+//      (405 for a non-POST method) - the HTTP status line is always 200 in this server;
+//   2. the handler does not panic (child death with the handler on the panicking stack);
+//   3. a create the statement calls semantically invalid is answered with code != 200;
+//   4. for EVERY response with code != 200: the task table, the duplicate-detection bookkeeping
+//      (data / excludeData / extraInfos; nameMapping informational) and the full etcd dump under the CDC
+//      meta root are the same as before the request.
+
+import (
+	"bytes"
+	"context"
+	"encoding/base64"
+	"encoding/json"
+	"flag"
+	"fmt"
+	"os"
+	"os/exec"
+	"path/filepath"
+	"regexp"
+	"runtime"
+	"sort"
+	"strconv"
+	"strings"
+	"sync/atomic"
+	"time"
+	"unicode/utf8"
+
+	clientv3 "go.etcd.io/etcd/client/v3"
+	"go.uber.org/zap/zapcore"
+
+	"github.com/zilliztech/milvus-cdc/core/log"
+	"github.com/zilliztech/milvus-cdc/server"
+	serverapi "github.com/zilliztech/milvus-cdc/server/api"
+	"github.com/zilliztech/milvus-cdc/server/maintenance"
+
+	"verifharness/internal/sysboot"
+	"verifharness/internal/vf"
+)
+
+var (
+	fC19Child = flag.Bool("c19-child", false, "C19: run as the process hosting the server under test")
+	fC19Batch = flag.Int("c19-batch", 0, "C19 child: batch number")
+	fC19From  = flag.Int("c19-from", 0, "C19 child: first request index")
+	fC19To    = flag.Int("c19-to", 0, "C19 child: one past the last request index")
+	fC19Dir   = flag.String("c19-dir", "", "C19 child: working directory")
+)
+
+const c19RequestWatchdog = 180 * time.Second
 
 func runC19(tier string) *vf.Run {
+	if *fC19Child {
+		c19ChildMain(tier) // never returns
+	}
 	run := vf.NewRun("C19", tier, "exploration")
-	run.Rule = "not built yet"
-	run.Inconclusive("check not built yet")
-	run.Floor("built", 1)
+	run.Rule = "case = one HTTP request to the real /cdc handler around the real MetaCDC; the request list is a fixed function of (seed, batch, index): " +
+		"per 20 indices 8 dictionary creates (classes cycled so that every class occurs), 4 JSON-grammar mutations of valid requests, 3 raw byte bodies, " +
+		"3 other operations with adversarial task ids, 1 valid create, 1 non-POST method; every 25 indices a new episode starts on an EMPTY server with 0-5 valid creates first " +
+		"(every 4th episode with a task limit of 6). Signature of a case = kind/class, response code, normalised message, whether the meta store was reached, number of live tasks (bucketed)."
+	run.Assumptions = []string{
+		"the source Milvus is silent (no collections, no messages): nothing but API requests writes under the CDC meta root, so a difference between the dumps around a request is caused by that request",
+		"the handler is called directly (no net/http server): a panic of the handler goroutine kills the child process and is read from its stderr; under net/http the same panic aborts the connection without any response",
+		"a changed state/reason of a task the request does not name is attributed to background activity and reported as inconclusive, not as a violation",
+		"over-long names are generated over-long in bytes AND characters (limit 256); names with '/', '%', '*', spaces, control or non-ASCII characters, an empty database name and fractional negative numbers are never required to be rejected",
+		"username without password, a foreign rpc channel name, two plain collection infos and similar shape errors are counted (soft) but not required to be rejected: the statement does not list them",
+	}
+	nb, per, conc := run.Pick(16, 64), run.Pick(190, 625), 8
+	if runtime.NumCPU() < 12 {
+		conc = 4
+	}
+	parallel(nb, conc, func(b int) { c19RunBatch(run, tier, b, per) })
+
+	// floors: about one third of what an unloaded run observes
+	run.Floor("requests", run.Pick(2500, 33000))
+	run.Floor("creates_past_validation", run.Pick(300, 4000))
+	run.Floor("rejected_after_partial_work", run.Pick(70, 850))
+	run.Floor("dict_class", len(c19Dict))
+	run.Floor("raw_bytes_bodies", run.Pick(120, 1600))
+	run.Floor("json_mutations", run.Pick(130, 1700))
+	run.Floor("non200_compared", run.Pick(700, 9000))
+	run.Floor("non200_on_nonempty_server", run.Pick(600, 8000))
+	run.Floor("non_post_requests", run.Pick(40, 500))
 	return run
+}
+
+// ---------------------------------------------------------------------------------------------------------
+// parent: one batch = a chain of child processes (a new one after every death)
+
+type c19Pending struct {
+	Req    c19Req   `json:"req"`
+	Body   string   `json:"body"`             // the request body (text when valid UTF-8)
+	BodyB6 string   `json:"body_b64,omitempty"` // base64 when it is not
+	Prior  []string `json:"prior_accepted"`   // state-changing requests of this episode answered 200, in order
+	Tasks  int      `json:"live_tasks"`
+}
+
+func c19BodyFields(b []byte) (string, string) {
+	if utf8.Valid(b) && len(b) < 4000 {
+		return string(b), ""
+	}
+	if utf8.Valid(b) {
+		return string(b[:2000]) + fmt.Sprintf("…(%d bytes)", len(b)), base64.StdEncoding.EncodeToString(b[:c19min(len(b), 30000)])
+	}
+	return "", base64.StdEncoding.EncodeToString(b[:c19min(len(b), 30000)])
+}
+
+var c19DumpRe = regexp.MustCompile(`^dump-(\d+)\.json$`)
+
+func c19LatestDump(dir string) (string, int) {
+	ents, _ := os.ReadDir(dir)
+	best, bestIdx := "", -1
+	for _, e := range ents {
+		if m := c19DumpRe.FindStringSubmatch(e.Name()); m != nil {
+			n, _ := strconv.Atoi(m[1])
+			if n > bestIdx {
+				best, bestIdx = filepath.Join(dir, e.Name()), n
+			}
+		}
+	}
+	return best, bestIdx
+}
+
+// c19PanicSite extracts the panic message, the first frame inside the repository and whether the /cdc handler is
+// on the panicking goroutine's stack.
+func c19PanicSite(logText string) (msg, site string, inHandler bool, found bool) {
+	i := -1
+	for _, mark := range []string{"\npanic: ", "\nfatal error: "} {
+		if k := strings.Index(logText, mark); k >= 0 && (i < 0 || k < i) {
+			i = k
+		}
+	}
+	if i < 0 {
+		if strings.HasPrefix(logText, "panic: ") || strings.HasPrefix(logText, "fatal error: ") {
+			i = 0
+		} else {
+			return "", "", false, false
+		}
+	}
+	t := logText[i:]
+	t = strings.TrimPrefix(t, "\n")
+	lines := strings.Split(t, "\n")
+	msg = lines[0]
+	// first goroutine block after the message = the panicking goroutine
+	start := -1
+	for k, l := range lines {
+		if strings.HasPrefix(l, "goroutine ") {
+			start = k
+			break
+		}
+	}
+	if start < 0 {
+		return msg, "unknown", false, true
+	}
+	repo := os.Getenv("VERIF_REPO")
+	if repo == "" {
+		repo = "/repo"
+	}
+	repo = strings.TrimSuffix(repo, "/") + "/"
+	site = ""
+	outside := ""
+	for k := start + 1; k+1 < len(lines); k++ {
+		l := lines[k]
+		if l == "" {
+			break
+		}
+		if strings.HasPrefix(l, "\t") {
+			continue
+		}
+		if strings.Contains(l, "getCDCHandler") || strings.Contains(l, "sysboot.(*CDC).Post") {
+			inHandler = true
+		}
+		fn := l
+		if p := strings.LastIndex(fn, "("); p > 0 {
+			fn = fn[:p]
+		}
+		file := strings.TrimSpace(lines[k+1])
+		if site == "" && strings.HasPrefix(file, repo) {
+			rel := strings.TrimPrefix(file, repo)
+			if p := strings.Index(rel, ":"); p > 0 {
+				rel = rel[:p]
+			}
+			site = rel + ":" + c19FuncTail(fn)
+		}
+		if outside == "" && !strings.HasPrefix(fn, "panic") && !strings.HasPrefix(fn, "runtime.") {
+			outside = c19FuncTail(fn)
+		}
+	}
+	if site == "" {
+		site = "outside-repo:" + outside
+	}
+	site += "/" + c19Slug(msg)
+	return msg, site, inHandler, true
+}
+
+// c19FuncTail: the innermost named function of a (possibly inlined, closure-suffixed) frame name
+func c19FuncTail(fn string) string {
+	if p := strings.LastIndex(fn, "/"); p >= 0 {
+		fn = fn[p+1:]
+	}
+	parts := strings.Split(fn, ".")
+	for len(parts) > 1 {
+		last := parts[len(parts)-1]
+		if strings.HasPrefix(last, "func") || last == "" || (last[0] >= '0' && last[0] <= '9') {
+			parts = parts[:len(parts)-1]
+			continue
+		}
+		break
+	}
+	return parts[len(parts)-1]
+}
+
+// c19Slug: the panic message without its variable parts, usable inside a key
+func c19Slug(msg string) string {
+	m := strings.TrimPrefix(strings.TrimPrefix(msg, "panic: "), "fatal error: ")
+	m = c19ReQuoted.ReplaceAllString(m, "Q")
+	m = c19ReDigits.ReplaceAllString(m, "N")
+	var sb strings.Builder
+	for _, c := range m {
+		switch {
+		case c >= 'a' && c <= 'z' || c >= 'A' && c <= 'Z' || c >= '0' && c <= '9':
+			sb.WriteRune(c)
+		default:
+			sb.WriteByte('-')
+		}
+	}
+	out := strings.Trim(sb.String(), "-")
+	for strings.Contains(out, "--") {
+		out = strings.ReplaceAll(out, "--", "-")
+	}
+	if len(out) > 48 {
+		out = out[:48]
+	}
+	return out
+}
+
+func c19ReadTail(path string, n int64) string {
+	f, err := os.Open(path)
+	if err != nil {
+		return ""
+	}
+	defer f.Close()
+	st, _ := f.Stat()
+	if st != nil && st.Size() > n {
+		_, _ = f.Seek(st.Size()-n, 0)
+	}
+	b := make([]byte, n)
+	k, _ := f.Read(b)
+	for k < len(b) {
+		m, err := f.Read(b[k:])
+		if m == 0 || err != nil {
+			break
+		}
+		k += m
+	}
+	return string(b[:k])
+}
+
+func c19RunBatch(run *vf.Run, tier string, b, per int) {
+	from := 0
+	const maxRestarts = 80
+	noProgress := 0
+	for attempt := 0; from < per; attempt++ {
+		if attempt > maxRestarts {
+			run.Inconclusive(fmt.Sprintf("batch %d: more than %d child restarts, giving up at index %d", b, maxRestarts, from))
+			return
+		}
+		dir := scratchDir(fmt.Sprintf("c19-b%02d-a%02d", b, attempt))
+		logPath := filepath.Join(dir, "child.log")
+		lf, err := os.Create(logPath)
+		if err != nil {
+			run.Inconclusive("cannot create child log: " + err.Error())
+			return
+		}
+		cmd := exec.Command(os.Args[0], "-prop", "C19", "-tier", tier, "-c19-child", "-c19-batch", strconv.Itoa(b),
+			"-c19-from", strconv.Itoa(from), "-c19-to", strconv.Itoa(per), "-c19-dir", dir)
+		cmd.Stdout, cmd.Stderr = lf, lf
+		cmd.Env = os.Environ()
+		if err := cmd.Start(); err != nil {
+			lf.Close()
+			run.Inconclusive("cannot start child: " + err.Error())
+			return
+		}
+		done := make(chan error, 1)
+		go func() { done <- cmd.Wait() }()
+		var werr error
+		hung := false
+		limit := time.Duration(run.Pick(20, 60)) * time.Minute
+		select {
+		case werr = <-done:
+		case <-time.After(limit):
+			hung = true
+			_ = cmd.Process.Kill()
+			werr = <-done
+		}
+		lf.Close()
+		if attempt > 0 {
+			run.Count("child_restarts", 1)
+		}
+		dump, last := c19LatestDump(dir)
+		if dump != "" {
+			if err := run.Merge(dump); err != nil {
+				run.Inconclusive(fmt.Sprintf("batch %d: unreadable child dump %s: %v", b, dump, err))
+			}
+		}
+		if _, err := os.Stat(filepath.Join(dir, "done")); err == nil && werr == nil {
+			return
+		}
+		// the child died (or was killed by the watchdog)
+		var pend c19Pending
+		havePend := false
+		if pb, err := os.ReadFile(filepath.Join(dir, "pending.json")); err == nil && json.Unmarshal(pb, &pend) == nil {
+			havePend = pend.Req.Idx > last
+		}
+		tail := c19ReadTail(logPath, 1<<20)
+		if hung {
+			run.Inconclusive(fmt.Sprintf("batch %d: child watchdog (%v) fired at index %d", b, limit, last+1))
+			return
+		}
+		if _, err := os.Stat(filepath.Join(dir, "hung")); err == nil {
+			// the child itself gave up on a request that did not return (its Run was dumped with the inconclusive case)
+			from = last + 1
+			continue
+		}
+		msg, site, inHandler, isPanic := c19PanicSite(tail)
+		if !havePend {
+			why := fmt.Sprintf("batch %d: child died outside a request (after index %d): %v", b, last, werr)
+			if isPanic {
+				why += "; " + msg + " at " + site
+			}
+			run.Inconclusive(why + "; log tail: " + c19Last(tail, 600))
+			if last+1 > from {
+				from, noProgress = last+1, 0
+			} else if noProgress++; noProgress >= 3 {
+				return
+			}
+			continue
+		}
+		noProgress = 0
+		// attributed to the request on disk
+		run.Eval(1)
+		run.Count("requests", 1)
+		run.Count("requests_killing_the_child", 1)
+		run.Distinct("kind_class", pend.Req.Kind+"/"+pend.Req.Class)
+		if pend.Req.Kind == "dict" {
+			run.Distinct("dict_class", pend.Req.Class)
+		}
+		run.Nontrivial(fmt.Sprintf("%s/%s|died|%s", pend.Req.Kind, pend.Req.Class, site))
+		replay := map[string]any{"batch": b, "index": pend.Req.Idx, "class": pend.Req.Class, "kind": pend.Req.Kind, "method": pend.Req.Method,
+			"body": pend.Body, "body_b64": pend.BodyB6, "prior_accepted_requests_of_episode": pend.Prior, "live_tasks": pend.Tasks,
+			"how": "start the server, POST the prior requests to /cdc in order, then this body", "panic": msg, "stack": c19PanicStack(tail)}
+		switch {
+		case isPanic && inHandler:
+			run.Violate("C19/handler-panic-"+site,
+				fmt.Sprintf("the /cdc handler panicked (%s) at %s while serving a %s request of class %s; %d live task(s); body: %s",
+					msg, site, pend.Req.Kind, pend.Req.Class, pend.Tasks, c19Short(pend.Body, 300)), replay)
+		case isPanic:
+			run.Inconclusive(fmt.Sprintf("batch %d index %d: the process died of a panic outside the handler goroutine (%s at %s) while a %s/%s request was in flight",
+				b, pend.Req.Idx, msg, site, pend.Req.Kind, pend.Req.Class))
+			run.Count("deaths_outside_handler", 1)
+		default:
+			run.Inconclusive(fmt.Sprintf("batch %d index %d: the child died without a panic trace (%v) during %s/%s; log tail: %s",
+				b, pend.Req.Idx, werr, pend.Req.Kind, pend.Req.Class, c19Last(tail, 600)))
+		}
+		from = pend.Req.Idx + 1
+	}
+}
+
+func c19Last(s string, n int) string {
+	if len(s) > n {
+		return s[len(s)-n:]
+	}
+	return s
+}
+
+func c19Short(s string, n int) string {
+	if len(s) > n {
+		s = s[:n]
+		for len(s) > 0 && !utf8.ValidString(s[len(s)-c19min(len(s), 4):]) && !utf8.ValidString(s) {
+			s = s[:len(s)-1]
+		}
+		return s + "…"
+	}
+	return s
+}
+
+func c19PanicStack(logText string) string {
+	i := strings.Index(logText, "panic: ")
+	if j := strings.Index(logText, "fatal error: "); j >= 0 && (i < 0 || j < i) {
+		i = j
+	}
+	if i < 0 {
+		return ""
+	}
+	t := logText[i:]
+	if k := strings.Index(t, "\n\ngoroutine "); k >= 0 {
+		if k2 := strings.Index(t[k+2:], "\n\n"); k2 >= 0 {
+			t = t[:k+2+k2]
+		}
+	}
+	return c19Short(t, 3000)
+}
+
+// ---------------------------------------------------------------------------------------------------------
+// child: hosts the server under test and decides every request that returns
+
+type c19Obs struct {
+	snap server.VerifSnapshot
+	etcd map[string]string
+}
+
+type c19Child struct {
+	run      *vf.Run
+	dir      string
+	batch    int
+	w        *sysboot.World
+	cdc      *sysboot.CDC
+	storeEvs atomic.Int64
+	storePut atomic.Int64
+	episode  int
+	prior    []string
+	names    []c19Name
+}
+
+func c19Fatal(format string, a ...any) {
+	fmt.Fprintf(os.Stderr, "C19-CHILD-FATAL "+format+"\n", a...)
+	os.Exit(4)
+}
+
+func c19ChildMain(tier string) {
+	log.SetLevel(zapcore.WarnLevel)
+	maintenance.InitMsgLog() // as server.Run does
+	c := &c19Child{run: vf.NewRun("C19", tier, "exploration"), dir: *fC19Dir, batch: *fC19Batch, episode: -1}
+	w, err := sysboot.NewWorld(sysboot.WorldOptions{Dir: filepath.Join(c.dir, "world"), Targets: 1})
+	if err != nil {
+		c19Fatal("world: %v", err)
+	}
+	c.w = w
+	for idx := *fC19From; idx < *fC19To; idx++ {
+		ep := idx / c19EpisodeLen
+		if ep != c.episode || c.cdc == nil {
+			c.reset(ep)
+		}
+		c.one(idx)
+		c.dump(idx)
+	}
+	_ = os.WriteFile(filepath.Join(c.dir, "done"), []byte("ok"), 0o644)
+	os.Exit(0)
+}
+
+func (c *c19Child) dump(idx int) {
+	tmp := filepath.Join(c.dir, "dump.tmp")
+	if err := c.run.Dump(tmp); err != nil {
+		c19Fatal("dump: %v", err)
+	}
+	name := fmt.Sprintf("dump-%d.json", idx)
+	if err := os.Rename(tmp, filepath.Join(c.dir, name)); err != nil {
+		c19Fatal("dump rename: %v", err)
+	}
+	ents, _ := os.ReadDir(c.dir)
+	for _, e := range ents {
+		if c19DumpRe.MatchString(e.Name()) && e.Name() != name {
+			_ = os.Remove(filepath.Join(c.dir, e.Name()))
+		}
+	}
+}
+
+// episode parameters are a function of (seed, batch, episode)
+func (c *c19Child) episodeParams(ep int) (pre int, maxTasks int) {
+	r := vf.Rand(c.run.Seed, fmt.Sprintf("c19-episode/%d", c.batch), ep)
+	pre = r.Intn(6)
+	maxTasks = 100
+	if ep%4 == 3 {
+		maxTasks = 6
+		pre = 5
+	}
+	return
+}
+
+func (c *c19Child) limited(ep int) bool { _, m := c.episodeParams(ep); return m < 100 }
+
+// reset gives the next episode an EMPTY server: the tasks of the old instance are deleted through the API, the
+// CDC meta root is wiped and a new MetaCDC + handler are built on the same world.
+func (c *c19Child) reset(ep int) {
+	if c.cdc != nil {
+		for _, t := range c.cdc.Svc.VerifSnapshot().Tasks {
+			body := c19envelope("delete", c19obj{{"task_id", t.TaskID}})
+			c.writePending(c19Req{Batch: c.batch, Idx: -1, Kind: "cleanup", Class: "cleanup-delete", Method: "POST"}, body)
+			c.cdc.Post("POST", body)
+		}
+		ctx, cancel := context.WithTimeout(context.Background(), 30*time.Second)
+		_, err := c.w.Etcd.Client.Delete(ctx, c.w.MetaRoot, clientv3.WithPrefix())
+		cancel()
+		if err != nil {
+			c19Fatal("wipe meta root: %v", err)
+		}
+	}
+	_, maxTasks := c.episodeParams(ep)
+	cdc, err := c.w.StartCDC(sysboot.CDCOptions{
+		MaxTaskNum: maxTasks,
+		WrapStore: func(f serverapi.MetaStoreFactory) serverapi.MetaStoreFactory {
+			return sysboot.WrapStore(f, func(ev sysboot.StoreEvent) sysboot.StoreDecision {
+				if ev.Phase == "before" {
+					c.storeEvs.Add(1)
+					if ev.Op == "put" || ev.Op == "delete" {
+						c.storePut.Add(1)
+					}
+				}
+				return sysboot.StoreDecision{}
+			}, func() {})
+		},
+	})
+	if err != nil {
+		c19Fatal("start cdc: %v", err)
+	}
+	c.cdc, c.episode, c.prior, c.names = cdc, ep, nil, nil
+}
+
+func (c *c19Child) writePending(r c19Req, body []byte) {
+	p := c19Pending{Req: r, Prior: c.prior}
+	p.Body, p.BodyB6 = c19BodyFields(body)
+	if c.cdc != nil {
+		p.Tasks = len(c.cdc.Svc.VerifSnapshot().Tasks)
+	}
+	b, _ := json.Marshal(p)
+	tmp := filepath.Join(c.dir, "pending.tmp")
+	if err := os.WriteFile(tmp, b, 0o644); err != nil {
+		c19Fatal("pending: %v", err)
+	}
+	if err := os.Rename(tmp, filepath.Join(c.dir, "pending.json")); err != nil {
+		c19Fatal("pending rename: %v", err)
+	}
+}
+
+func (c *c19Child) observe() (c19Obs, error) {
+	d, err := c.w.Etcd.Dump(c.w.MetaRoot)
+	if err != nil {
+		return c19Obs{}, err
+	}
+	return c19Obs{snap: c.cdc.Svc.VerifSnapshot(), etcd: d}, nil
+}
+
+var (
+	c19ReDigits = regexp.MustCompile(`[0-9]+`)
+	c19ReQuoted = regexp.MustCompile(`"[^"]*"|'[^']*'|\[[^\]]*\]`)
+)
+
+func c19MsgClass(m string) string {
+	m = c19ReQuoted.ReplaceAllString(m, "Q")
+	m = c19ReDigits.ReplaceAllString(m, "N")
+	if len(m) > 70 {
+		m = m[:70]
+	}
+	return m
+}
+
+type c19Body struct {
+	kind string // ok | empty | not-json | not-object | no-code | code-not-integer
+	code int
+	msg  string
+	data map[string]any
+}
+
+// c19ParseBody: the body must be exactly one JSON object with an integer member "code"
+func c19ParseBody(raw []byte) c19Body {
+	t := bytes.TrimSpace(raw)
+	if len(t) == 0 {
+		return c19Body{kind: "empty"}
+	}
+	if !json.Valid(t) {
+		return c19Body{kind: "not-json"}
+	}
+	dec := json.NewDecoder(bytes.NewReader(t))
+	dec.UseNumber()
+	var m map[string]any
+	if err := dec.Decode(&m); err != nil || m == nil {
+		return c19Body{kind: "not-object"}
+	}
+	cv, ok := m["code"]
+	if !ok {
+		return c19Body{kind: "no-code"}
+	}
+	num, ok := cv.(json.Number)
+	if !ok {
+		return c19Body{kind: "code-not-integer"}
+	}
+	n, err := strconv.ParseInt(num.String(), 10, 64)
+	if err != nil {
+		return c19Body{kind: "code-not-integer"}
+	}
+	out := c19Body{kind: "ok", code: int(n)}
+	out.msg, _ = m["message"].(string)
+	out.data, _ = m["data"].(map[string]any)
+	return out
+}
+
+func c19Bucket(n int) string {
+	switch {
+	case n == 0:
+		return "0"
+	case n == 1:
+		return "1"
+	case n <= 3:
+		return "2-3"
+	case n <= 5:
+		return "4-5"
+	}
+	return "6+"
+}
+
+func (c *c19Child) one(idx int) {
+	run := c.run
+	pre, _ := c.episodeParams(c.episode)
+	snap0 := c.cdc.Svc.VerifSnapshot()
+	g := &c19Gen{rng: vf.Rand(run.Seed, fmt.Sprintf("c19/%d", c.batch), idx), batch: c.batch, idx: idx, uri: c.w.Targets[0].URI(),
+		replChan: c.w.ReplicateChan(), names: c.names}
+	addr := c.w.Targets[0].Addr()
+	if i := strings.LastIndex(addr, ":"); i > 0 {
+		g.host = addr[:i]
+		g.port, _ = strconv.Atoi(addr[i+1:])
+	}
+	for _, t := range snap0.Tasks {
+		g.tasks = append(g.tasks, c19Task{ID: t.TaskID, State: t.State})
+	}
+	req := g.next(pre, c.episode, c.limited(c.episode))
+	c.writePending(req, req.Body)
+
+	before, err := c.observe()
+	if err != nil {
+		run.Inconclusive(fmt.Sprintf("batch %d index %d: cannot dump etcd before the request: %v", c.batch, idx, err))
+		return
+	}
+	ev0, put0 := c.storeEvs.Load(), c.storePut.Load()
+	type answer struct{ r sysboot.Response }
+	ch := make(chan answer, 1)
+	go func() { ch <- answer{c.cdc.Post(req.Method, req.Body)} }()
+	var resp sysboot.Response
+	select {
+	case a := <-ch:
+		resp = a.r
+	case <-time.After(c19RequestWatchdog):
+		buf := make([]byte, 4<<20)
+		buf = buf[:runtime.Stack(buf, true)]
+		_ = os.WriteFile(filepath.Join(c.dir, "hung-stacks.txt"), buf, 0o644)
+		run.Eval(1)
+		run.Count("requests", 1)
+		run.Inconclusive(fmt.Sprintf("batch %d index %d: the handler did not return within %v (%s/%s)", c.batch, idx, c19RequestWatchdog, req.Kind, req.Class))
+		c.dump(idx)
+		_ = os.WriteFile(filepath.Join(c.dir, "hung"), []byte(strconv.Itoa(idx)), 0o644)
+		os.Exit(5)
+	}
+	evs, puts := c.storeEvs.Load()-ev0, c.storePut.Load()-put0
+
+	run.Eval(1)
+	run.Count("requests", 1)
+	run.Count("kind_"+req.Kind, 1)
+	run.Distinct("kind_class", req.Kind+"/"+req.Class)
+	switch req.Kind {
+	case "dict":
+		run.Distinct("dict_class", req.Class)
+	case "raw":
+		run.Count("raw_bytes_bodies", 1)
+	case "mut":
+		run.Count("json_mutations", 1)
+	case "method":
+		run.Count("non_post_requests", 1)
+	}
+	if len(before.snap.Tasks) > 0 {
+		run.Count("requests_on_nonempty_server", 1)
+	}
+
+	bodyText, bodyB64 := c19BodyFields(req.Body)
+	replay := func(extra map[string]any) map[string]any {
+		m := map[string]any{"batch": c.batch, "index": idx, "kind": req.Kind, "class": req.Class, "method": req.Method, "body": bodyText,
+			"prior_accepted_requests_of_episode": append([]string{}, c.prior...), "live_tasks_before": len(before.snap.Tasks),
+			"response": c19Short(string(resp.Raw), 1500), "http_status": resp.HTTPStatus,
+			"how": "start the server (empty meta store), POST the prior requests to /cdc in order, then send this body with this method"}
+		if bodyB64 != "" {
+			m["body_b64"] = bodyB64
+		}
+		for k, v := range extra {
+			m[k] = v
+		}
+		return m
+	}
+
+	// ---- 1. well-formed answer
+	pb := c19ParseBody(resp.Raw)
+	if pb.kind != "ok" {
+		run.Count("malformed_responses", 1)
+		run.Violate("C19/response-"+pb.kind, fmt.Sprintf("%s request of class %s (%s): the response body is %s: %q", req.Kind, req.Class, req.Method, pb.kind, c19Short(string(resp.Raw), 200)), replay(nil))
+		run.Nontrivial(fmt.Sprintf("%s/%s|%s", req.Kind, req.Class, pb.kind))
+		c.after(req, pb, before)
+		return
+	}
+	run.Count(fmt.Sprintf("code_%d", pb.code), 1)
+	if req.Kind == "dict" || req.Kind == "op" {
+		run.Count(fmt.Sprintf("outcome/%s/%d", req.Class, pb.code), 1)
+	}
+	if req.Method != "POST" {
+		if pb.code != 405 {
+			run.Violate(fmt.Sprintf("C19/non-post-code-%d", pb.code), fmt.Sprintf("method %s answered with code %d, expected 405: %s", req.Method, pb.code, c19Short(string(resp.Raw), 200)), replay(nil))
+		}
+	} else if pb.code != 200 && pb.code != 400 && pb.code != 500 {
+		run.Violate(fmt.Sprintf("C19/response-code-%d", pb.code), fmt.Sprintf("%s request of class %s answered with code %d (allowed: 200, 400, 500): %s", req.Kind, req.Class, pb.code, c19Short(string(resp.Raw), 200)), replay(nil))
+	}
+	if resp.HTTPStatus != 200 {
+		run.Count("http_status_not_200", 1)
+	}
+
+	// ---- coverage of depth
+	if req.Create && req.Method == "POST" && (evs > 0 || pb.code == 200) {
+		run.Count("creates_past_validation", 1)
+	}
+	if req.Method == "POST" && pb.code != 200 && evs > 0 && (req.Create || req.Kind == "mut") {
+		run.Count("rejected_after_partial_work", 1)
+		if puts > 0 {
+			run.Count("rejected_after_store_write", 1)
+		}
+	}
+	deep := "shallow"
+	if evs > 0 {
+		deep = "store"
+	}
+	run.Nontrivial(fmt.Sprintf("%s/%s|%d|%s|%s|%s", req.Kind, req.Class, pb.code, c19MsgClass(pb.msg), deep, c19Bucket(len(before.snap.Tasks))))
+	if req.Kind == "dict" && req.Expect == c19Strict {
+		run.Sample(map[string]any{"class": req.Class, "body": c19Short(bodyText, 300), "code": pb.code, "message": c19Short(pb.msg, 160)})
+	}
+
+	// ---- 3. semantically invalid requests must be rejected
+	if req.Method == "POST" && pb.code == 200 {
+		switch req.Expect {
+		case c19Strict:
+			run.Count("accepted_strict_invalid", 1)
+			run.Violate("C19/"+c19StrictKey(req.Class), fmt.Sprintf("a request of class %s was answered with code 200 although the statement demands a rejection; body: %s; response: %s",
+				req.Class, c19Short(bodyText, 400), c19Short(string(resp.Raw), 200)), replay(nil))
+		case c19Soft:
+			run.Count("accepted_soft_invalid", 1)
+			run.Distinct("accepted_soft_invalid_class", req.Class)
+		}
+	}
+	if req.Expect != c19Any && pb.code != 200 {
+		run.Count("rejected_invalid", 1)
+	}
+	if req.Class == "db-empty" && pb.code == 200 {
+		run.Count("accepted_empty_db_name", 1)
+	}
+
+	// ---- 4. a rejected request leaves everything as it was
+	if pb.code != 200 {
+		after, err := c.observe()
+		if err != nil {
+			run.Inconclusive(fmt.Sprintf("batch %d index %d: cannot dump etcd after the request: %v", c.batch, idx, err))
+		} else {
+			run.Count("non200_compared", 1)
+			if len(before.snap.Tasks) > 0 {
+				run.Count("non200_on_nonempty_server", 1)
+			}
+			for _, d := range c19Diff(before, after, req) {
+				if d.background {
+					run.Count("background_changes", 1)
+					run.Inconclusive(fmt.Sprintf("batch %d index %d: %s changed around a rejected %s/%s request that does not name it: %s", c.batch, idx, d.key, req.Kind, req.Class, d.desc))
+					continue
+				}
+				if d.info {
+					run.Count("info_"+d.key, 1)
+					continue
+				}
+				run.Violate("C19/"+d.key, fmt.Sprintf("%s/%s request answered with code %d (%s) but %s", req.Kind, req.Class, pb.code, c19Short(pb.msg, 200), d.desc),
+					replay(map[string]any{"difference": d.desc, "store_calls_during_request": evs, "store_writes_during_request": puts}))
+			}
+		}
+	}
+	c.after(req, pb, before)
+}
+
+// after: bookkeeping of the episode (what was accepted so far)
+func (c *c19Child) after(req c19Req, pb c19Body, before c19Obs) {
+	if pb.kind != "ok" || pb.code != 200 || req.Method != "POST" {
+		return
+	}
+	now := c.cdc.Svc.VerifSnapshot()
+	changed := len(now.Tasks) != len(before.snap.Tasks)
+	if !changed {
+		for i := range now.Tasks {
+			if now.Tasks[i] != before.snap.Tasks[i] {
+				changed = true
+			}
+		}
+	}
+	if !changed {
+		return
+	}
+	s, _ := c19BodyFields(req.Body)
+	if len(c.prior) < 40 {
+		c.prior = append(c.prior, s)
+	}
+	// names known to the duplicate detection (full names "db.collection" with exactly one separator)
+	c.names = c.names[:0]
+	for _, list := range now.Data {
+		for _, full := range list {
+			if p := strings.Split(full, "."); len(p) == 2 && p[1] != "*" && p[0] != "*" {
+				c.names = append(c.names, c19Name{p[0], p[1]})
+			}
+		}
+	}
+	sort.Slice(c.names, func(i, j int) bool { return c.names[i].DB+"."+c.names[i].Coll < c.names[j].DB+"."+c.names[j].Coll })
+}
+
+// ---------------------------------------------------------------------------------------------------------
+// comparison of the observations around a rejected request
+
+type c19DiffItem struct {
+	key        string
+	desc       string
+	background bool // not attributable to the request
+	info       bool // informational only
+}
+
+func c19Multiset(m map[string][]string) map[string]int {
+	out := map[string]int{}
+	for k, l := range m {
+		for _, v := range l {
+			out[k+" -> "+v]++
+		}
+	}
+	return out
+}
+
+func c19MultisetDiff(a, b map[string]int) (added, lost []string) {
+	for k, n := range b {
+		if n > a[k] {
+			added = append(added, fmt.Sprintf("%s (x%d, was x%d)", k, n, a[k]))
+		}
+	}
+	for k, n := range a {
+		if n > b[k] {
+			lost = append(lost, fmt.Sprintf("%s (x%d, now x%d)", k, n, b[k]))
+		}
+	}
+	sort.Strings(added)
+	sort.Strings(lost)
+	return
+}
+
+func c19Diff(a, b c19Obs, req c19Req) []c19DiffItem {
+	var out []c19DiffItem
+	// task table
+	ta, tb := map[string]server.VerifTask{}, map[string]server.VerifTask{}
+	for _, t := range a.snap.Tasks {
+		ta[t.TaskID] = t
+	}
+	for _, t := range b.snap.Tasks {
+		tb[t.TaskID] = t
+	}
+	for id, t := range tb {
+		if o, ok := ta[id]; !ok {
+			out = append(out, c19DiffItem{key: "reject-left-task-in-table", desc: fmt.Sprintf("task %q (state %d) is in the task table although the request was rejected", id, t.State)})
+		} else if o != t {
+			named := req.TaskRef == id || strings.Contains(string(req.Body), id)
+			out = append(out, c19DiffItem{key: "reject-changed-task-state", background: !named,
+				desc: fmt.Sprintf("task %q changed from state %d (%q) to state %d (%q)", id, o.State, o.Reason, t.State, t.Reason)})
+		}
+	}
+	for id := range ta {
+		if _, ok := tb[id]; !ok {
+			out = append(out, c19DiffItem{key: "reject-removed-task", desc: fmt.Sprintf("task %q vanished from the task table", id)})
+		}
+	}
+	// duplicate-detection bookkeeping (multisets; a missing key and an empty list are the same thing)
+	if add, lost := c19MultisetDiff(c19Multiset(a.snap.Data), c19Multiset(b.snap.Data)); len(add)+len(lost) > 0 {
+		if len(add) > 0 {
+			out = append(out, c19DiffItem{key: "reject-residue-collection-names", desc: "the collection-name bookkeeping gained " + strings.Join(add, ", ")})
+		}
+		if len(lost) > 0 {
+			out = append(out, c19DiffItem{key: "reject-lost-collection-names", desc: "the collection-name bookkeeping lost " + strings.Join(lost, ", ")})
+		}
+	}
+	if add, lost := c19MultisetDiff(c19Multiset(a.snap.ExcludeData), c19Multiset(b.snap.ExcludeData)); len(add)+len(lost) > 0 {
+		if len(add) > 0 {
+			out = append(out, c19DiffItem{key: "reject-residue-exclude-names", desc: "the exclude-name bookkeeping gained " + strings.Join(add, ", ")})
+		}
+		if len(lost) > 0 {
+			out = append(out, c19DiffItem{key: "reject-lost-exclude-names", desc: "the exclude-name bookkeeping lost " + strings.Join(lost, ", ")})
+		}
+	}
+	for k, v := range b.snap.ExtraInfos {
+		if v && !a.snap.ExtraInfos[k] {
+			out = append(out, c19DiffItem{key: "reject-residue-extrainfo", desc: fmt.Sprintf("extraInfos[%s].EnableUserRole became true (a later create with enable_user_role will be refused as duplicate)", k)})
+		}
+	}
+	for k, v := range a.snap.ExtraInfos {
+		if v && !b.snap.ExtraInfos[k] {
+			out = append(out, c19DiffItem{key: "reject-lost-extrainfo", desc: fmt.Sprintf("extraInfos[%s].EnableUserRole was true and is false now", k)})
+		}
+	}
+	nm := func(m map[string]map[string]string) string {
+		var l []string
+		for k, mm := range m {
+			for s, t := range mm {
+				l = append(l, k+"|"+s+"|"+t)
+			}
+		}
+		sort.Strings(l)
+		return strings.Join(l, ";")
+	}
+	if nm(a.snap.NameMapping) != nm(b.snap.NameMapping) {
+		out = append(out, c19DiffItem{key: "name_mapping_changed_by_rejected_request", info: true})
+	}
+	// persisted records
+	var keys []string
+	for k := range b.etcd {
+		keys = append(keys, k)
+	}
+	for k := range a.etcd {
+		if _, ok := b.etcd[k]; !ok {
+			keys = append(keys, k)
+		}
+	}
+	sort.Strings(keys)
+	kindOf := func(k string) string {
+		switch {
+		case strings.Contains(k, "/task_position/"):
+			return "checkpoint"
+		case strings.Contains(k, "/task_info/"):
+			return "task-info"
+		}
+		return "other-key"
+	}
+	for _, k := range keys {
+		va, ina := a.etcd[k]
+		vb, inb := b.etcd[k]
+		switch {
+		case !ina && inb:
+			out = append(out, c19DiffItem{key: "reject-left-" + kindOf(k) + "-in-store", desc: fmt.Sprintf("the meta store gained the key %s = %s", k, c19Short(vb, 300))})
+		case ina && !inb:
+			out = append(out, c19DiffItem{key: "reject-removed-" + kindOf(k) + "-from-store", desc: fmt.Sprintf("the meta store lost the key %s", k)})
+		case va != vb:
+			named := false
+			for id := range ta {
+				if strings.Contains(k, "/"+id) && (req.TaskRef == id || strings.Contains(string(req.Body), id)) {
+					named = true
+				}
+			}
+			out = append(out, c19DiffItem{key: "reject-changed-" + kindOf(k) + "-in-store", background: !named,
+				desc: fmt.Sprintf("the value of the key %s changed from %s to %s", k, c19Short(va, 200), c19Short(vb, 200))})
+		}
+	}
+	return out
 }
